@@ -15,6 +15,7 @@ import Mathlib.Algebra.Order.Field.Basic
 import Mathlib.Data.Matrix.Mul
 import TjdModel.Agg.Spec2
 import TjdLemmas.PinvLemmas
+import TjdLemmas.PinvComplete
 namespace Tjd.Props.C17b
 open Tjd Tjd.Agg Matrix
 
@@ -63,6 +64,19 @@ theorem pinv_cert_eq_penrose (G : Mat α) (m : Nat) (hG : SymmSquare G m) (P : M
 theorem pinv_cert_eq_solution (G : Mat α) (m : Nat) (hG : SymmSquare G m) (hpd : PosDef G m) (d v x : Vec α)
     (hd : d.length = m) (hv : v.length = m) (hs : matVec G v = d) (h : pinvApply G d = some x) : x = v := by
   exact pinv_eq_solution_list G m hG hpd d v x hd hv hs h
+
+/-- COMPLETENESS of the certified search: for every symmetric matrix (any rank) and every right-hand side of the right
+    length the search RETURNS (the system `G³ u = G d` it solves is always consistent and the model's Gauss–Jordan routine finds
+    a solution of every consistent system), so — with `pinvApply_sound` and `pinv_cert_unique` — `pinvApply` is total and its
+    value is THE minimum-norm least-squares solution -/
+theorem pinvApply_total (G : Mat α) (m : Nat) (hG : SymmSquare G m) (d : Vec α) (hd : d.length = m) :
+    ∃ x, pinvApply G d = some x := by
+  exact pinvApply_complete G m hG d hd
+
+/-- hence the any-rank IMTL-G model returns weights for every matrix and every vector of row norms of the right length -/
+theorem imtlgWeightsP_total (J : Mat α) (m n : Nat) (hJ : MatWF J m n) (d : Vec α) (hd : d.length = m) (guard : α) :
+    ∃ w, imtlgWeightsP J d guard = some w := by
+  exact imtlgWeightsP_complete J m n hJ d hd guard
 
 /-! ### IMTL-G at any rank -/
 
